@@ -24,7 +24,7 @@ func runSeed(master uint64, prop string, idx int) uint64 {
 func init() {
 	register(&propDef{
 		id: "C01", level: "exploration", quickRuns: 160, thoroughRuns: 4000, wallPerRun: 4 * time.Minute,
-		rule:        "Each run: 1-3 real clients x 1-6 multiplexed TCP sessions against a real server, full-duplex PRF scripts with boundary-biased write/read sizes, independent random traffic patterns per side (padding, fragmentation, 4 nonce types, low-entropy off/32/40/48/56 x 31 rotations), both handshake modes, random link latency/jitter/bandwidth/receive buffer and PRNG re-chunking of the byte stream (incl. one byte per read); offset-exact stream oracle at every Read.",
+		rule:        "Each run: 1-3 real clients x 1-6 multiplexed TCP sessions against a real server, full-duplex PRF scripts with boundary-biased write/read sizes, independent random traffic patterns per side (padding, fragmentation, 4 nonce types, low-entropy off/32/40/48/56 x 31 rotations), both handshake modes, random link latency/jitter/bandwidth/receive buffer and PRNG re-chunking of the byte stream (incl. one byte per read); offset-exact stream oracle at every Read. Writers overwrite their buffer as soon as Write returns (io.Writer: must not retain p). 35 % of the runs take their connections straight from protocol.Mux on both sides (as mieru's own client and server programs do) instead of through apis/client and apis/server: there the application's first write is the session's first write and rides on the open-session request.",
 		assumptions: []string{"TCP semantics are those of the simnet model (ordered reliable byte stream, arbitrary re-chunking, back-pressure)", "a clean batch is evidence, not proof"},
 		components:  realComponents,
 		gen: func(master uint64, idx int, tier string) *spec.RunSpec {
@@ -127,7 +127,7 @@ func applyUDPFaultProfile(s *spec.RunSpec, r *simnet.Rng, liveness bool) {
 func init() {
 	register(&propDef{
 		id: "C02", level: "exploration", quickRuns: 192, thoroughRuns: 4000, wallPerRun: 5 * time.Minute,
-		rule:        "Each run: 1-3 real clients x 1-4 sessions over the UDP transport (MTU 1280-1500, random traffic patterns incl. low entropy) with one datagram fault profile: clean, light or heavy random loss/duplication/delay-reorder/corruption, bursts, a partition of up to 20 s, or targeted faults on named datagrams (open request/response, nth data segment, acks, close). Offset-exact stream oracle at every Read; progress oracle under explicit fairness budgets (<=4 drops per segment, <=2 faults per handshake, faults stop at a recorded heal instant): every byte is read within 120 virtual s + 10x the loss-free transfer time after the heal.",
+		rule:        "Each run: 1-3 real clients x 1-4 sessions over the UDP transport (MTU 1280-1500, random traffic patterns incl. low entropy) with one datagram fault profile: clean, light or heavy random loss/duplication/delay-reorder/corruption, bursts, a partition of up to 20 s, or targeted faults on named datagrams (open request/response, nth data segment, acks, close). Offset-exact stream oracle at every Read; progress oracle under explicit fairness budgets (<=4 drops per segment, <=2 faults per handshake, faults stop at a recorded heal instant): every byte is read within 120 virtual s + 10x the loss-free transfer time after the heal. Buffer reuse after Write and the 35 % share of raw protocol.Mux runs are as in C01. While a handshake is pending the fair-network budget allows no injected delay above 200 ms.",
 		assumptions: []string{"'fair share' is defined by the budgets recorded in each spec (net.maxDropPerSeg, net.maxHandshakeDrops, net.healUs, blackholes <= 20 s)", "UDP semantics are those of the simnet model", "a clean batch is evidence, not proof"},
 		components:  realComponents,
 		gen: func(master uint64, idx int, tier string) *spec.RunSpec {
@@ -274,7 +274,7 @@ func mixGen(id string, salt uint64, parts ...string) func(master uint64, idx int
 func init() {
 	register(&propDef{
 		id: "C14", level: "exploration", quickRuns: 192, thoroughRuns: 4000, wallPerRun: 5 * time.Minute,
-		rule:        "UDP runs from the C02/C03 generators with MTU 1280-1500 drawn independently per side, padding maxima 0..255, low-entropy off/32/40/48/56, write sizes 1 B to several fragments, first-write piggyback 0..1024, and fault profiles that force retransmissions, acks and control segments. On every emitted datagram: len <= sender's configured MTU; on every decoded segment (both transports): session payload <= 1024, fragment <= 32768, low-entropy length law.",
+		rule:        "UDP runs from the C02/C03 generators with MTU 1280-1500 drawn independently per side, padding maxima 0..255, low-entropy off/32/40/48/56, write sizes 1 B to several fragments, first-write piggyback 0..1024, and fault profiles that force retransmissions, acks and control segments. On every emitted datagram: len <= sender's configured MTU; on every decoded segment (both transports): session payload <= 1024, fragment <= 32768, low-entropy length law. Half of the UDP runs are size sweeps: series of writes whose data segment leaves 0, 1, 254..256, 509..511 or a random 0..520 bytes of room in the datagram (optionally after a full 32 KiB fragment), with padding maxima at their defaults or at 255.",
 		assumptions: []string{"the configured MTU of a sender is the mtu field of its own configuration", "the reference codec is the trusted base"},
 		components:  realComponents,
 		gen: func(master uint64, idx int, tier string) *spec.RunSpec {
